@@ -41,7 +41,8 @@ FIX_COMMITS = ["d6ae502 (passive start-up cancellation: port/listener leak)",
                "d075526 (LIST lines with S / T mode characters made the listing fail)",
                "253090b (Server.close() returned while a starting passive listener was open)",
                "ca3f636 (home_path not normalised became the working directory)",
-               "d948632 (windows-flavour base: backslash / drive names were second virtual paths)"]
+               "d948632 (windows-flavour base: backslash / drive names were second virtual paths)",
+               "698672c (nameless listing line ending in a dot still dropped)"]
 
 # dimensions added after the fourth wave of seeded changes (plug-in APIs as part of the input space)
 EXTRA = {
